@@ -234,3 +234,49 @@ SIBLINGS = {
 # instance-data cells (not episode state): a sibling pair must depend on the same ones
 INSTANCE_CELLS = {"locs", "time_windows", "durations", "service_time", "speed", "demand", "demand_linehaul", "demand_backhaul", "vehicle_capacity",
                   "distance_limit", "open_route", "skills", "techs", "max_length", "real_prize", "prize_required"}
+
+# ------------------------------------------------------------------------------------------
+# C02 -- padding column / completion tables (all envs, not only routing)
+S_ = "rl4co/envs/scheduling/"
+G_ = "rl4co/envs/graph/"
+E_ = "rl4co/envs/eda/"
+ALL_ENVS = dict((k, v[0]) for k, v in ENVS.items())
+ALL_ENVS.update({
+    "FJSPEnv": S_ + "fjsp/env.py", "JSSPEnv": S_ + "jssp/env.py", "FFSPEnv": S_ + "ffsp/env.py", "SMTWTPEnv": S_ + "smtwtp/env.py",
+    "FLPEnv": G_ + "flp/env.py", "MCPEnv": G_ + "mcp/env.py", "DPPEnv": E_ + "dpp/env.py", "MDPPEnv": E_ + "mdpp/env.py",
+})
+
+# how the padding action (depot / no-op) is guaranteed to stay open:
+#  'no-customer-open' : under "no non-padding column is open" the padding column is open
+#  'done'             : under done=True some column is open (value of `done` as stored by _step / read by the mask)
+#  'always'           : the padding column is unconditionally open
+#  'all-visited'      : under "no unvisited customer exists" the padding column is open
+PADDING = {
+    "CVRPEnv": ("mask", "no-customer-open", ()),
+    "CVRPTWEnv": ("mask", "no-customer-open", ("time-window",)),
+    "SDVRPEnv": ("mask", "no-customer-open", ()),
+    "SVRPEnv": ("mask", "no-customer-open", ()),
+    "MTVRPEnv": ("mask", "no-customer-open", ()),
+    "OPEnv": ("mask", "always", ()),
+    "PCTSPEnv": ("mask", "all-visited", ()),
+    "SPCTSPEnv": ("mask", "all-visited", ()),
+    "MTSPEnv": ("step", "done", ()),
+    "MDCPDPEnv": ("step", "done", ()),
+    "FJSPEnv": ("mask", "done", ()),
+    "JSSPEnv": ("mask", "done", ()),
+}
+PADDING_WHY = {
+    "CVRPTWEnv": "the time-window filter also applies to the depot column; at the depot current_time is reset to 0 (C01.e), so the depot "
+                 "is blocked by it only on instances whose depot window is violated by the instance data itself (generator precondition)",
+}
+
+# completion computed from the *updated* value of this key (set-completion envs)
+DONE_FROM = {
+    "TSPEnv": "action_mask", "ATSPEnv": "action_mask", "PDPEnv": "available", "MTSPEnv": "action_mask", "MDCPDPEnv": "available",
+    "CVRPEnv": "visited", "CVRPTWEnv": "visited", "SVRPEnv": "visited", "MTVRPEnv": "visited", "SDVRPEnv": "demand_with_depot",
+    "SMTWTPEnv": "action_mask", "FFSPEnv": "job_location", "FJSPEnv": "job_done", "JSSPEnv": "job_done",
+}
+# completion = "returned to the depot after the first move": depends on action and on the pre-increment counter
+DONE_RETURN = {"OPEnv": "i", "PCTSPEnv": "i", "SPCTSPEnv": "i"}
+# completion = quota reached on the pre-increment counter (shared with C08)
+DONE_QUOTA = {"FLPEnv": ("i", {"to_choose"}), "MCPEnv": ("i", {"n_sets_to_choose"}), "DPPEnv": ("i", set()), "MDPPEnv": ("i", set())}
